@@ -674,6 +674,10 @@ class NetworkServiceAccessPoint(ServiceAccessPoint, Server, DebugContents):
             # adapters to the destination network
             router_info = None
             for snet, snet_adapter in self.adapters.items():
+                # never send it back to the network it came from
+                if snet_adapter is adapter:
+                    continue
+
                 router_info = self.router_info_cache.get_router_info(snet, dnet)
                 if router_info:
                     break
